@@ -19,7 +19,7 @@ def register(reg, S):
     reg.add(Contract(
         "chartparse.tick:seconds_from_ticks_at_bpm",
         params=dict(ticks=INT, bpm=REAL, resolution=INT), result=REAL,
-        requires=[("envelope", f"-{BIG} <= ticks <= {BIG} and resolution <= {BIG} and bpm <= 10**9 and (bpm <= 0 or 1000 * bpm >= 1)")],
+        requires=[("envelope", "-2**52 <= ticks <= 2**52 and resolution <= 2**52 and bpm <= 10**9 and (bpm <= 0 or 1024 * bpm >= 1)")],
         raises={"ValueError": "ticks < 0 or bpm <= 0 or resolution <= 0"},
         defines="SEC(ticks, bpm, resolution)",
         ensures=[
